@@ -99,6 +99,9 @@ type Broker struct {
 	// ReuseIDs makes Publish pick the lowest free packet identifier instead
 	// of counting on.
 	ReuseIDs bool
+	// HoldPubrel withholds the PUBREL that answers a PUBREC; it goes out with the
+	// retransmission on the next connection.
+	HoldPubrel bool
 }
 
 func newBroker(w *World) *Broker {
@@ -296,8 +299,11 @@ func (b *Broker) handle(c *Conn, s *connState, p *wire.Packet) {
 		for _, m := range b.State.Out {
 			if m.ID == p.ID && m.QoS == 2 {
 				m.State = 1
-				m.RelSent++
 				w.snap("pubrec")
+				if b.HoldPubrel {
+					return
+				}
+				m.RelSent++
 				if !b.Mute {
 					c.send(wire.Ack(wire.PUBREL, p.ID), "PUBREL")
 				}
